@@ -15,7 +15,7 @@ States == {"absent", "file", "xfile", "symlink", "dir"}
 Allowed(i) ==
     IF Tier = "thorough" THEN (CASE i \in {2, 6} -> {"absent", "file", "symlink", "dir"} [] i = 4 -> {"absent", "file", "xfile"}
                                  [] OTHER -> States)
-    ELSE IF Tier = "tiny" THEN (IF i \in {1, 8} THEN {"absent", "file", "symlink"} ELSE IF i \in {2, 3, 4} THEN {"absent"} ELSE {"absent", "dir"})
+    ELSE IF Tier = "tiny" THEN (IF i \in {1, 8} THEN {"absent", "xfile", "symlink"} ELSE IF i \in {2, 3, 4} THEN {"absent"} ELSE {"absent", "dir"})
     ELSE CASE i = 1 -> States
            [] i = 2 -> {"absent", "file", "dir"}
            [] i = 3 -> {"absent", "xfile", "symlink"}
